@@ -25,7 +25,8 @@
 (*    value              Eval(obs, a) = sem1'[a] for every assignment      *)
 (*    coef_positive      obs carries a coefficient <= 0                    *)
 (*    one_per_var        obs carries a variable twice                      *)
-(*    ineq               Holds(obs, a) <=> sem1[a] (cmp) sem2[a]           *)
+(*    ineq               Holds(obs, a) <=> sem1[a] (cmp) sem2[a], whichever of  *)
+(*                       the five operators the observed inequality carries *)
 (*    operand_preserved  the operands still evaluate to sem1 / sem2 after  *)
 (*                       the call (an expression built earlier keeps the   *)
 (*                       value it was built with)                          *)
@@ -64,7 +65,7 @@ Preserved(e) == /\ (e.o1 = p1 \/ ValueOK(e.o1, sem1))
 Clauses(e, R) ==
   IF e.exc = 1 THEN [raises |-> FALSE]
   ELSE IF e.op = "cmp"
-  THEN [ineq |-> /\ Readable(e.obs) /\ e.obs.op \in {">=", ">", "="}
+  THEN [ineq |-> /\ Readable(e.obs) /\ e.obs.op \in CmpOps
                  /\ IneqAgrees([lhs |-> AsNF(e.obs), rhs |-> e.obs.rhs, op |-> e.obs.op], sem1, e.cmp, sem2),
         coef_positive |-> CoefsPositive(e.obs),
         one_per_var |-> VarsOnce(e.obs),
